@@ -13,6 +13,7 @@ R-C01.3  from_callable_and_traced_types: every traced name, the return and the y
          update (after TypedDict replacement), and every generated TypedDict class stub is kept
 R-C01.4  trace(): the tracer is built from the same config (logger -> store, limit)
 R-C01.5  histories on one tracer object: every recorded type is inferred from the event's own value
+R-C01.6  the annotation text evaluates, with the names the stub itself provides, to the inferred type (core types)
 """
 from __future__ import annotations
 
@@ -209,3 +210,5 @@ def run(ctx: Ctx, repo: Repo, tier: str) -> None:
     _c04.rule_dict_type(ctx, repo)
     _c02.rule_return_table(ctx, repo)
     _c09.rule_query(ctx, repo)
+    from . import c11 as _c11
+    _c11.rule_pipeline_core(ctx, repo, "R-C01.6")
